@@ -308,41 +308,39 @@ func c01NegotiateFeatures(c *cx, nf *eng.Fn, call *ast.CallExpr) (firstParam str
 		return false
 	}
 	bad := ""
-	if g.Reachable(g.After(callPt), callPt, nil, isMark) {
+	// paths on which the step is known to have failed end the negotiation with
+	// that error (C04.1) and are exempt: the negotiated set is not used again
+	failCut := eng.Cut{}
+	for _, ce := range g.EdgesMatching("!eq(" + callNorm + "#2,nil)") {
+		failCut[ce.E] = true
+	}
+	if g.Reachable(g.After(callPt), callPt, failCut, isMark) {
 		bad = "the loop can come back to Negotiate without recording the feature as negotiated"
 	}
 	for _, rs := range g.Returns {
 		pt, _ := g.Where(rs)
-		if g.Reachable(g.After(callPt), pt, nil, isMark) {
-			bad = "return at " + c.p.Pos(rs.Pos()) + " reachable after Negotiate without recording the feature as negotiated"
+		if g.Reachable(g.After(callPt), pt, failCut, isMark) {
+			bad = "return at " + c.p.Pos(rs.Pos()) + " reachable after a successful Negotiate without recording the feature as negotiated"
 		}
 	}
-	c.r.Check("C01.5", nf, "store into Session.negotiated", "O: after Negotiate every path to the back-edge or an exit records the feature's namespace in Session.negotiated", call.Pos(), bad == "", bad)
+	c.r.Check("C01.5", nf, "store into Session.negotiated", "O: after Negotiate every path to the back-edge, and every path to an exit on which the step did not fail, records the feature's namespace in Session.negotiated", call.Pos(), bad == "", bad)
 
 	// ---- C01.6 stop after a mandatory feature or a restart -----------------------
 	reenter := g.Reachable(g.After(callPt), callPt, nil, nil)
 	if reenter {
-		// cut: edges establishing rw == nil && !data.req must be crossed
+		// every way back to Negotiate crosses an edge establishing rw == nil and
+		// an edge establishing !data.req (checked separately: the two tests may
+		// sit on different edges, e.g. the cases of a switch)
 		pat1 := "eq(" + callNorm + "#1,nil)"
 		pat2 := "!" + dataStr + ".req"
-		cut := eng.Cut{}
-		for _, ce := range g.CondEdges() {
-			h1, h2 := false, false
-			for _, a := range ce.Atoms {
-				if a.S == pat1 {
-					h1 = true
-				}
-				if a.S == pat2 {
-					h2 = true
-				}
-			}
-			if h1 && h2 {
-				cut[ce.E] = true
+		okBoth := true
+		for _, pat := range []string{pat1, pat2} {
+			if !g.DominatedFrom(g.After(callPt), callPt, []string{pat}) {
+				okBoth = false
 			}
 		}
-		again := g.Reachable(g.After(callPt), callPt, cut, nil)
-		c.r.Check("C01.6", nf, "loop back-edge after Negotiate", "G: the loop continues only if no new stream layer was returned and the feature was voluntary", call.Pos(), len(cut) > 0 && !again,
-			"Negotiate can be reached again without passing the test rw == nil && !req")
+		c.r.Check("C01.6", nf, "loop back-edge after Negotiate", "G: the loop continues only if no new stream layer was returned and the feature was voluntary", call.Pos(), okBoth,
+			"Negotiate can be reached again without passing the tests rw == nil and !req")
 	} else {
 		c.r.Check("C01.6", nf, "loop back-edge after Negotiate", "G: (no back-edge: at most one feature per call)", call.Pos(), true, "")
 	}
